@@ -180,6 +180,34 @@ def main():
                              PRELUDE + SRC + f"t = mk({n}, 1).rows[{rsel}]\na, b = np.array(t['a']), np.array(t['b'])\nfrom numpy import sqrt\nwant = {ex}\n"
                              f"for g in (t[{ex!r}], t.cols[{ex!r}][{ex!r}], t._select(None, [{ex!r}])[{ex!r}]):\n    assert len(g) == len(want) and np.allclose(np.array(g, dtype=float), want), (g, want)\n",
                              "Table.__getitem__")
+    rac.section("expressions-shadowing", "columns whose NAMES coincide with functions of the expression namespace (sign, sin, exp, mod, power): "
+                "inside an expression the name means the column, on every access route (t[expr], t.cols[expr], t._select(None, [expr]), "
+                "t[expr, row])", "5 expressions x tables of 1..4 rows")
+    for n in range(1, 5):
+        cols = {"name": np.array([f"e{i}" for i in range(n)], dtype=object), "sign": np.array([(-1.0) ** i * (i + 1) for i in range(n)]),
+                "sin": np.arange(n) * 0.5 + 2, "exp": np.arange(n) + 1.5, "mod": np.arange(n) * 2.0 + 1, "power": np.arange(n) + 3.0,
+                "k1": np.arange(n) * 0.25 + 1}
+        mksrc = f"n = {n}\nt = xdeps.Table({{'name': np.array([f'e{{i}}' for i in range(n)], dtype=object), 'sign': np.array([(-1.0) ** i * (i + 1) for i in range(n)]), " \
+                "'sin': np.arange(n) * 0.5 + 2, 'exp': np.arange(n) + 1.5, 'mod': np.arange(n) * 2.0 + 1, 'power': np.arange(n) + 3.0, 'k1': np.arange(n) * 0.25 + 1})\n"
+        t = __import__("xdeps").Table(dict(cols))
+        for ex, want in (("sign*k1", cols["sign"] * cols["k1"]), ("sin+1", cols["sin"] + 1), ("exp*2-mod", cols["exp"] * 2 - cols["mod"]),
+                         ("sqrt(k1)*sign", np.sqrt(cols["k1"]) * cols["sign"]), ("power/k1", cols["power"] / cols["k1"])):
+            rac.case(("shadow", n, ex), sample=dict(rows=n, expr=ex))
+            try:
+                g1 = np.array(t[ex], dtype=float)
+                g2 = np.array(t.cols[ex][ex], dtype=float)
+                g3 = np.array(t._select(None, [ex])[ex], dtype=float)
+                g4 = np.array([t[ex, i] for i in range(n)], dtype=float)
+                okx = all(len(g) == len(want) and np.allclose(g, want) for g in (g1, g2, g3, g4))
+                got = [list(g) for g in (g1, g2, g3, g4)]
+            except Exception as e_:     # noqa
+                okx, got = False, repr(e_)
+            if not okx:
+                rac.fail(f"shadow n={n} {ex}", f"C14 column expression {ex!r} over columns named sign/sin/exp/mod/power is not the element-wise value "
+                         f"{list(want)} on every route: {got}", PRELUDE + "import numpy as np\nimport xdeps\nfrom numpy import sqrt\n" + mksrc +
+                         "sign, sin, exp, mod, power, k1 = (np.array(t[c]) for c in ('sign', 'sin', 'exp', 'mod', 'power', 'k1'))\n"
+                         f"want = {ex}\nfor g in (t[{ex!r}], t.cols[{ex!r}][{ex!r}], t._select(None, [{ex!r}])[{ex!r}], [t[{ex!r}, i] for i in range(n)]):\n"
+                         "    assert len(g) == len(want) and np.allclose(np.array(g, dtype=float), want), (g, want)\n", "Table.__getitem__")
     rac.section("constructor", "the checked constructor rejects non-rectangular input", "5 malformed inputs + 3 well-formed")
     bads = {"unequal lengths": "xdeps.Table({'name': np.array(['a', 'b'], dtype=object), 'x': np.array([1.0])})",
             "index missing": "xdeps.Table({'x': np.array([1.0])}, index='name')",
